@@ -1,12 +1,14 @@
+pub mod c24;
 pub mod c41;
 
 use crate::core::CheckDef;
 
 pub fn lookup(id: &str) -> Option<CheckDef> {
     Some(match id {
+        "C24" => c24::def(),
         "C41" => c41::def(),
         _ => return None,
     })
 }
 
-pub const ALL: &[&str] = &["C41"];
+pub const ALL: &[&str] = &["C24", "C41"];
